@@ -26,6 +26,8 @@ READY = {
     "OHVerif.Props.C06", "OHVerif.Props.C07", "OHVerif.Props.C08",
     "OHVerif.Lemmas.VecBackend", "OHVerif.Lemmas.Kahn",
     "OHVerif.Props.C01", "OHVerif.Props.C02", "OHVerif.Props.C05",
+    "OHVerif.Props.C09", "OHVerif.Props.C11", "OHVerif.Props.C15", "OHVerif.Props.C17Acyclic",
+    "OHVerif.Props.C12", "OHVerif.Props.C13", "OHVerif.Props.C14", "OHVerif.Props.C19",
 }
 
 def _mods(*names):
@@ -59,6 +61,35 @@ PROPS = {
                 groups=_ADV("oh", 800) + _ADV("law", 600) + _ADV("graph", 700) + _ADV("eval", 600) + _ADV("functor", 300) + _ADV("ff", 500) + _ADV("prim", 500) + _ADV("hg", 400) + _ADV("ic", 300),
                 deps=[]),
 }
+# which ops decide which property (regex on the op name without backend prefix); a disagreement in any
+# other op met while running the groups is NOT this property's concern and is ignored by its check
+ONLY = {
+    "C01": r"oh\.compose$",
+    "C02": r"(oh\.tensor|hg\.coproduct|ic\.tensor|ff\.tensor|lax\.tensor|law\.tensor_\w+:eq)$",
+    "C03": r"law\.(assoc|id_left|id_right|interchange|twist_natural|twist_twist|hexagon|hexagon_mirror)$",
+    "C04": r"(oh\.dagger|oh\.spider|oh\.half_spider|lax\.dagger|lax\.spider|law\.dagger_\w+(:eq)?|law\.spider_fusion|law\.identity_is_spider:eq|law\.twist_is_spider:eq)$",
+    "C05": r"(hg\.new|oh\.new|ff\.new|ic\.new_\w+|ic\.from_semifinite_\w+|ic\.ops_new|oh\.\w+|lax\.(from_strict|to_strict|identity|spider|singleton|tensor|compose|lax_compose|twist|dagger|source|target)|functor\.\w+|lax\.functor\.\w+|lax\.optic\.\w+)$",
+    "C06": r"ff\.",
+    "C07": r"prim\.",
+    "C08": r"ic\.",
+    "C09": r"lax\.edit$",
+    "C10": r"(lax\.(from_strict|to_strict|to_hypergraph|compose|lax_compose|tensor|tensor_assign|append|coproduct_assign|identity|twist|spider|dagger|singleton)|law\.(to_from_strict:eq|from_to_strict:lax-eq|strict_\w+))$",
+    "C11": r"lax\.edit$",
+    "C12": r"(functor\.\w+|lax\.functor\.map_arrow)$",
+    "C13": r"lax\.functor\.(try_map_arrow|map_arrow_witness|map_arrow)$",
+    "C14": r"(lax\.optic\.\w+|optic\.deriv)$",
+    "C15": r"graph\.(converse|operation_adjacency|indegree|dense_relative_indegree|sparse_relative_indegree|kahn|layer|layered_operations)$",
+    "C16": r"eval\.eval$",
+    "C17": r"(oh\.is_monogamous|oh\.is_acyclic|hg\.is_acyclic|hg\.in_degree|hg\.out_degree|graph\.node_adjacency)$",
+    "C18": r"graph\.(arrow_new|is_monomorphism|is_convex_subgraph)$",
+    "C19": r"var\.",
+    "C20": r"(oh\.(compose|tensor|is_monogamous|is_acyclic)|law\.\w+(:eq)?|graph\.(layer|layered_operations|arrow_new|is_monomorphism|is_convex_subgraph)|eval\.eval|functor\.identity_map_arrow|hg\.is_acyclic|ff\.coequalizer\w*|prim\.(argsort|sort_by|connected_components|sparse_bincount|scatter))$",
+}
+# C05 is about well-formedness and types only: a disagreement in a diagram-valued op counts for it
+# only if the implementation's result is ill-formed or mistyped (fields computed by the driver)
+WF_TYPE_ONLY = {"C05"}
+for _k in PROPS:
+    PROPS[_k]["deps"] = []   # a property's check looks only at the ops that decide it
 PROPS = {k: v for k, v in PROPS.items() if v["modules"]}
 
 LEVEL_TEXT = {
